@@ -182,10 +182,11 @@ var propRules = map[string]*PropSpec{
 		Technique:  "static analysis: goroutine/channel/WaitGroup/pool skeleton rules over go/ssa CFG (must-pass-through, at-most-once)",
 	},
 	"C13": {
-		Rules:       []string{"L4", "L1", "B1", "B3", "A4", "T1", "R1", "B6", "UNS1", "G1"},
+		Rules:       []string{"L4", "L1", "B1", "B3", "A4", "T1", "R1", "B6", "UNS1", "G1", "UNS2"},
 		Explanation: explBase + " C13: the three frozen writers, the size predictor and the reader agree on type codes, count fields, element sizes and arena order; FreezeTo checks the buffer before writing; errors propagate; the view is flagged.",
 		Decided: []string{
 			"the frozen view's container table and headers live in typed (scanned) memory",
+			"no data pointer of a possibly empty byte slice is reinterpreted as a wider element (the frozen form of the empty bitmap is 4 bytes)",
 			"every decoder resets or reassigns all three table arrays of the receiver on every successful path (decoding into a used bitmap keeps nothing)",
 			"type codes bitmap=1/array=2/run=3 and count encodings agree across FreezeTo, WriteFrozenTo, GetFrozenSizeInBytes and frozenView and with the CRoaring layout constants", "FreezeTo's size check dominates every write into buf and the returned count is the checked size", "WriteFrozenTo propagates every writer error", "frozen payloads are flagged copy-on-write, keys are copied", "container count bounded (<= 65536) before allocation"},
 		NotDecided: []string{"byte equality of the three writers on a given input", "Equal after view"},
